@@ -1100,3 +1100,1081 @@ class C07(LinesBase):
             else:
                 ev.tags.append("step:clean")
         return ev
+
+
+# ==========================================================================================
+# C03 — all-or-nothing validation
+# ==========================================================================================
+
+def canonical_file(rng):
+    chains = ch.gen_file(rng, max_chains=4)
+    for c in chains:
+        c.blocks = [(max(1, s), dt, dq) for s, dt, dq in c.blocks]
+        c.ref.end = c.ref.start + c.ref_extent()
+        c.qry.end = c.qry.start + c.qry_extent()
+    ch.fix_sizes(rng, chains)
+    return [ch.chain_to_dict(c) for c in chains]
+
+
+def file_lines(chains_d):
+    """line list of the canonical rendering, with (chain index, role) per line"""
+    lines, roles = [], []
+    for ci, d in enumerate(chains_d):
+        c = ch.chain_from_dict(d)
+        lines.append(c.header())
+        roles.append((ci, "H", None))
+        for bi, l in enumerate(c.data_lines()):
+            lines.append(l)
+            roles.append((ci, "D", bi))
+        lines.append("")
+        roles.append((ci, "B", None))
+    return lines, roles
+
+
+def mutations(rng, chains_d):
+    """the corruption catalogue of C03, each applied at first / middle / last applicable position.
+    yields (label, list of lines)"""
+    n = len(chains_d)
+    picks = sorted(set([0, n // 2, n - 1]))
+    for ci in picks:
+        d = chains_d[ci]
+        nb = len(d["blocks"])
+        for bi in sorted(set([0, nb // 2, nb - 1])):
+            for f, name in ((0, "size"), (1, "dt"), (2, "dq")):
+                if f and bi == nb - 1:
+                    continue
+                for k in (-1, 1, 3):
+                    if d["blocks"][bi][f] + k < 0:
+                        continue
+                    cs = copy.deepcopy(chains_d)
+                    cs[ci]["blocks"][bi][f] += k
+                    yield ("%s%+d chain%d block%d" % (name, k, ci, bi), file_lines(cs)[0])
+        for side in ("ref", "qry", "both"):
+            for idx, what in ((3, "start"), (4, "end")):
+                for k in (-1, 1, 4):
+                    cs = copy.deepcopy(chains_d)
+                    for s in (("ref", "qry") if side == "both" else (side,)):
+                        cs[ci][s][idx] += k
+                    if any(cs[ci][s][idx] < 0 for s in ("ref", "qry")):
+                        continue
+                    yield ("header %s %s%+d chain%d" % (side, what, k, ci), file_lines(cs)[0])
+        for side in ("ref", "qry"):
+            cs = copy.deepcopy(chains_d)
+            cs[ci][side][3], cs[ci][side][4] = cs[ci][side][4] + 1, cs[ci][side][3]
+            yield ("start>end %s chain%d" % (side, ci), file_lines(cs)[0])
+            cs = copy.deepcopy(chains_d)
+            cs[ci][side][1] = cs[ci][side][4] - 1
+            if cs[ci][side][1] >= 0:
+                yield ("size<end %s chain%d" % (side, ci), file_lines(cs)[0])
+    lines, roles = file_lines(chains_d)
+    for ci in picks:
+        idxs = [k for k, r in enumerate(roles) if r[0] == ci]
+        hdr = idxs[0]
+        data = [k for k in idxs if roles[k][1] == "D"]
+        term = data[-1]
+        l2 = list(lines); del l2[term]
+        yield ("terminating line removed chain%d" % ci, l2)
+        for pos in sorted(set([data[0], term])):
+            for what, text in (("blank", ""), ("header", lines[hdr]), ("junk", "chain oops"), ("junk2", "7\t1")):
+                l2 = list(lines); l2.insert(pos, text)
+                yield ("%s inserted inside section chain%d" % (what, ci), l2)
+        l2 = list(lines); l2.insert(hdr, "5")
+        yield ("data before header chain%d" % ci, l2)
+        l2 = list(lines); l2[hdr] = lines[hdr] + " 9"
+        yield ("14 header fields chain%d" % ci, l2)
+        l2 = list(lines); l2[hdr] = " ".join(lines[hdr].split(" ")[:-1])
+        yield ("12 header fields chain%d" % ci, l2)
+        l2 = list(lines); l2[term] = lines[term] + "\t1"
+        yield ("2 data fields chain%d" % ci, l2)
+        l2 = list(lines); l2[term] = lines[term] + "\t1\t1\t1"
+        yield ("4 data fields chain%d" % ci, l2)
+        l2 = list(lines); l2[term] = "x" + lines[term]
+        yield ("non-numeric size chain%d" % ci, l2)
+        l2 = list(lines); l2[term] = "18446744073709551616"
+        yield ("out-of-range size chain%d" % ci, l2)
+        parts = lines[hdr].split(" ")
+        for fi in (1, 3, 5, 6, 8, 10, 11, 12):
+            l2 = list(lines); p2 = list(parts); p2[fi] = "18446744073709551616"; l2[hdr] = " ".join(p2)
+            if fi in (3, 8):
+                yield ("out-of-range header field %d chain%d" % (fi, ci), l2)
+            l2 = list(lines); p2 = list(parts); p2[fi] = "-" + p2[fi]; l2[hdr] = " ".join(p2)
+            if fi in (1, 5, 12):
+                yield ("negative header field %d chain%d" % (fi, ci), l2)
+        l2 = list(lines); p2 = list(parts); p2[4] = "*"; l2[hdr] = " ".join(p2)
+        yield ("bad strand chain%d" % ci, l2)
+
+
+def build_class(reply):
+    t = reply.split(" ")
+    if t[0] == "ok":
+        return "ok"
+    if t[0] == "err":
+        return " ".join(t[:4]) if t[1] == "sections" else " ".join(t[:4]) if t[1] == "step" else " ".join(t[:2])
+    return t[0]
+
+
+@register
+class C03(Prop):
+    id = "C03"
+    title = "All-or-nothing validation: a machine is never built from an ill-formed chain"
+    rule = ("canonical well-formed files (must be accepted) and, for each, the whole corruption catalogue at first/middle/last "
+            "chain and block: size/dt/dq ±k, header start/end ±k on the reference only / query only / both, start>end, size<end, "
+            "terminating line removed, blank/header/junk inserted inside a section, data before the first header, wrong field "
+            "counts, non-numeric and out-of-range numbers; judge = the specification's `WFFile` decided on the same bytes "
+            "(accepted iff well-formed, never a panic); non-trivial = a corruption that changes exactly one side's sum or is "
+            "structural; distinct by (file, corruption)")
+
+    def cases(self, rng, tier):
+        for _ in range(40 if tier == "quick" else 1500):
+            cs = canonical_file(rng)
+            yield {"kind": "canonical", "chains": cs, "label": "canonical", "lines": file_lines(cs)[0]}
+            for label, lines in mutations(rng, cs):
+                yield {"kind": "mutated", "chains": cs, "label": label, "lines": lines}
+
+    def evaluate(self, ctx, case):
+        ev = Eval()
+        data = ch.render_lines(case["lines"])
+        src = ch.src_one(data)
+        i, m = both(ctx, ev, "build " + src)
+        if build_class(i) != build_class(m):
+            ev.corr = "impl %r vs model %r" % (i[:200], m[:200])
+        s = ctx.model.ask("spec wf " + src)
+        ev.requests.append("spec wf " + src)
+        wf = s.startswith("wf")
+        ev.tags.append(case["label"].split(" chain")[0].split("+")[0].split("-")[0].strip() + (":wf" if wf else ":ill"))
+        if i.startswith("panic") or i == "abort":
+            ev.judge = "builder panicked on: " + case["label"]
+        elif case["kind"] == "canonical" and not i.startswith("ok"):
+            ev.judge = "canonical well-formed file refused: " + i
+        elif wf and not i.startswith("ok"):
+            ev.judge = "well-formed file refused (%s): %s" % (case["label"], i)
+        elif not wf and i.startswith("ok"):
+            ev.judge = "ill-formed file accepted (%s; specification says %s)" % (case["label"], s)
+        lab = case["label"]
+        if any(x in lab for x in ("dt", "dq", "header ref", "header qry", "removed", "inserted", "before")):
+            ev.nontrivial = (case_key2(case["chains"]), lab)
+        return ev
+
+    def shrink(self, case):
+        for k in range(len(case["lines"])):
+            c = copy.deepcopy(case)
+            del c["lines"][k]
+            yield c
+
+    def neighbours(self, case, rng):
+        for label, lines in mutations(rng, case["chains"]):
+            yield {"kind": "mutated", "chains": case["chains"], "label": label, "lines": lines}
+
+
+# ==========================================================================================
+# C12 — encodings and chunking; C08 — truncation and faults; C17 — one cursor
+# ==========================================================================================
+
+def blank_norm(items):
+    return [("E blank" if x.startswith("E blank") else x) for x in items]
+
+
+@register
+class C12(Prop):
+    id = "C12"
+    title = "Parsing is independent of line endings, blank padding and read chunking"
+    rule = ("valid and invalid files (C05 line streams and generated chain files) x {LF, CRLF} x {final newline, none} x blank "
+            "lines inserted between sections x chunk schedules (1 byte at a time, every two-piece split of short files, random "
+            "compositions, splits between CR and LF); judge: sections / build / liftover equal to the single-chunk LF baseline "
+            "modulo the numbers in Blank errors; raw reads report the bytes consumed and strip exactly one LF then one CR; "
+            "non-trivial = CRLF or a chunk boundary inside a line; distinct by (stream, encoding, schedule)")
+
+    def cases(self, rng, tier):
+        n = 120 if tier == "quick" else 4000
+        for k in range(n):
+            if k % 2 == 0:
+                lines = gen_line_case(rng, tier)
+                ivs = []
+            else:
+                chains = ch.gen_file(rng, max_chains=3)
+                lines = []
+                for c in chains:
+                    lines += c.lines() + [""]
+                ivs = [list(ch.gen_interval(rng, chains)) for _ in range(6)]
+            yield {"kind": "enc", "lines": lines, "ivs": ivs, "seed": rng.randint(0, 2 ** 31)}
+
+    def variants(self, case):
+        """(label, event list) re-encodings and chunkings of the same line sequence"""
+        rng = random.Random(case["seed"])
+        lines = case["lines"]
+        base = ch.render_lines(lines, "\n", True)
+        out = [("lf", [("c", base)])]
+        for eol in ("\n", "\r\n"):
+            for fin in (True, False):
+                if not fin and lines and lines[-1] == "":
+                    continue
+                data = ch.render_lines(lines, eol, fin)
+                out.append(("%s fin=%s" % ("crlf" if eol != "\n" else "lf", fin), [("c", data)]))
+                for ev in ch.chunkings(rng, data, k=2):
+                    out.append(("%s fin=%s chunks=%d" % ("crlf" if eol != "\n" else "lf", fin, len(ev)), ev))
+                if len(data) <= 80:
+                    for cut in range(1, len(data)):
+                        out.append(("two-piece@%d" % cut, [("c", data[:cut]), ("c", data[cut:])]))
+                if eol == "\r\n":
+                    pos = data.find(b"\r\n")
+                    if pos >= 0:
+                        out.append(("split CR|LF", [("c", data[:pos + 1]), ("c", data[pos + 1:])]))
+        # blank padding before/between/after sections: only for streams without errors (in a stream with an
+        # error a "chain" line may sit inside a section, where a blank line is a different error)
+        if case.get("clean"):
+            padded = []
+            for t in lines:
+                if t.startswith("chain ") and rng.random() < 0.7:
+                    padded += [""] * rng.randint(1, 2)
+                padded.append(t)
+            padded += [""] * rng.randint(0, 2)
+            out.append(("blank padding", [("c", ch.render_lines(padded, "\n", True))]))
+        return out
+
+    def evaluate(self, ctx, case):
+        ev = Eval()
+        n = len(case["lines"]) * 2 + 8
+        b0 = ctx.impl.ask("sections %s %d" % (ch.src_one(ch.render_lines(case["lines"])), 4 * n))
+        case = dict(case)
+        case["clean"] = not any(x.startswith("E") for x in b0.split(" ; "))
+        vs = self.variants(case)
+        base = None
+        ivs = ",".join(iv_tok(*iv) for iv in case["ivs"])
+        for label, events in vs:
+            src = ch.src_events(events)
+            i, m = both(ctx, ev, "sections %s %d" % (src, 4 * n))
+            ii = blank_norm(i.split(" ; "))
+            if ii != blank_norm(m.split(" ; ")):
+                ev.corr = "sections (%s): impl %r vs model %r" % (label, i[:200], m[:200])
+            if label != "blank padding" or True:
+                if base is None:
+                    base = ii
+                elif ii != base and not (label == "blank padding" and blank_norm(ii) == base):
+                    ev.judge = "sections differ under '%s': %s vs baseline %s" % (label, ii[:6], base[:6])
+                    break
+            if case["ivs"]:
+                i2, m2 = both(ctx, ev, "liftover %s %s" % (src, ivs))
+                if lift_obs(i2) != lift_obs(m2):
+                    ev.corr = "liftover (%s): impl %r vs model %r" % (label, i2[:200], m2[:200])
+                o = (build_class(i2.split(" ; ")[0]).replace("E blank %s" % "", ""), lift_obs(i2)[1])
+                o = (" ".join(build_class(i2.split(" ; ")[0]).split(" ")[:4]), lift_obs(i2)[1])
+                if label == "lf":
+                    lbase = o
+                elif o[1] != lbase[1] or o[0].split(" ")[:4] != lbase[0].split(" ")[:4]:
+                    if not (o[0].startswith("err sections E blank") and lbase[0].startswith("err sections E blank")):
+                        ev.judge = "machine differs under '%s': %s vs baseline %s" % (label, o, lbase)
+                        break
+            if label != "blank padding":
+                # raw reads: consumed byte counts add up, text = piece without LF then CR
+                i3, m3 = both(ctx, ev, "raw %s" % src)
+                if i3 != m3:
+                    ev.corr = "raw (%s): impl %r vs model %r" % (label, i3[:200], m3[:200])
+                data = b"".join(e[1] for e in events)
+                toks = i3.split(" ")
+                if toks[-1] != "eof":
+                    ev.judge = "raw reads did not end"
+                    break
+                off = 0
+                for t in toks[:-1]:
+                    if not t.startswith("L"):
+                        ev.judge = "raw read failed on valid UTF-8: " + t
+                        break
+                    nn, hxs = t[1:].split(":")
+                    piece = data[off:off + int(nn)]
+                    off += int(nn)
+                    want = piece[:-1] if piece.endswith(b"\n") else piece
+                    if piece.endswith(b"\n") and want.endswith(b"\r"):
+                        want = want[:-1]
+                    if ch.unhx(hxs) != want:
+                        ev.judge = "raw read returned %r for the piece %r" % (ch.unhx(hxs), piece)
+                        break
+                if not ev.judge and off != len(data):
+                    ev.judge = "raw reads consumed %d of %d bytes" % (off, len(data))
+                if ev.judge:
+                    break
+                texts = [ch.unhx(t.split(":")[1]).decode() for t in toks[:-1]]
+                want_lines = list(case["lines"])
+                if texts != want_lines and not (want_lines and want_lines[-1] == "" and texts == want_lines[:-1] and not label.endswith("fin=True")):
+                    if not ("fin=False" in label and want_lines and texts == want_lines):
+                        ev.judge = "lines under '%s' are %s, expected %s" % (label, texts[:5], want_lines[:5])
+                        break
+            if "crlf" in label or "chunks" in label or "two-piece" in label:
+                ev.nontrivial = (case_key2(case["lines"]), label)
+            ev.tags.append(label.split("@")[0].split(" chunks")[0])
+        return ev
+
+    def shrink(self, case):
+        for k in range(len(case["lines"])):
+            c = copy.deepcopy(case)
+            del c["lines"][k]
+            yield c
+        if case["ivs"]:
+            c = copy.deepcopy(case)
+            c["ivs"] = case["ivs"][:1]
+            yield c
+
+
+@register
+class C08(Prop):
+    id = "C08"
+    title = "Truncated files and failing readers never produce a partial or shifted mapping"
+    level = "proof"
+    rule = ("canonical well-formed files x every byte offset 0..len: the build fails or answers a batch of intervals exactly like the "
+            "machine of some whole-chain prefix; x every position k of the chunk schedule at which a hard error or an Interrupted "
+            "is injected: a hard error makes build / the section call in progress return an I/O error (never Ok, never a panic), "
+            "interrupts change nothing; non-trivial = the cut falls inside a line / the fault falls inside a section; "
+            "distinct by (file, offset or fault position)")
+
+    def cases(self, rng, tier):
+        for _ in range(12 if tier == "quick" else 400):
+            cs = canonical_file(rng)
+            chains = [ch.chain_from_dict(c) for c in cs]
+            ivs = [list(ch.gen_interval(rng, chains)) for _ in range(10)]
+            for c in chains:
+                for b in ch.chain_blocks(c)[:2]:
+                    ivs.append([b[0], b[1], b[2], b[3]])
+            yield {"kind": "trunc", "chains": cs, "ivs": ivs[:16]}
+            yield {"kind": "fault", "chains": cs, "ivs": ivs[:6], "seed": rng.randint(0, 2 ** 31)}
+
+    def evaluate(self, ctx, case):
+        ev = Eval()
+        cs = case["chains"]
+        data = ch.render_case(cs)
+        ivs = ",".join(iv_tok(*iv) for iv in case["ivs"])
+        if case["kind"] == "trunc":
+            prefixes = []
+            for j in range(len(cs) + 1):
+                r = ctx.impl.ask("liftover %s %s" % (ch.src_one(ch.render_case(cs[:j])) if j else "-", ivs))
+                prefixes.append(lift_obs(r))
+            offsets = case.get("offsets") or range(len(data) + 1)
+            lines_at = set()
+            off = 0
+            for l in data.split(b"\n"):
+                lines_at.add(off)
+                off += len(l) + 1
+            for k in offsets:
+                i, m = both(ctx, ev, "liftover %s %s" % (ch.src_one(data[:k]), ivs))
+                if lift_obs(i) != lift_obs(m):
+                    ev.corr = "cut at %d: impl %r vs model %r" % (k, i[:200], m[:200])
+                o = lift_obs(i)
+                if o[0].startswith("panic") or i == "abort":
+                    ev.judge = "panic when cut at byte %d" % k
+                    break
+                if o[0].startswith("ok") and o not in prefixes:
+                    ev.judge = "cut at byte %d of %d builds a machine that matches no whole-chain prefix: %s" % (k, len(data), i[:300])
+                    case_offsets = [k]
+                    break
+                if k not in lines_at and k - 1 not in lines_at:
+                    ev.nontrivial = (case_key2(cs), k)
+                ev.tags.append("cut:" + o[0].split(" ")[0] + (" " + " ".join(o[0].split(" ")[1:4]) if o[0].startswith("err") else ""))
+        else:
+            rng = random.Random(case["seed"])
+            events = rng.choice(ch.chunkings(rng, data, k=3)[1:])
+            base_b = ctx.impl.ask("build %s" % ch.src_events(events))
+            base_s = ctx.impl.ask("sections %s %d" % (ch.src_events(events), 4 * len(data)))
+            positions = case.get("positions") or range(len(events) + 1)
+            for k in positions:
+                for kind in ("f", "i"):
+                    evs = events[:k] + [kind] + events[k:]
+                    src = ch.src_events(evs)
+                    i, m = both(ctx, ev, "build " + src)
+                    if build_class(i) != build_class(m):
+                        ev.corr = "fault %s at %d: impl %r vs model %r" % (kind, k, i[:200], m[:200])
+                    i2, m2 = both(ctx, ev, "sections %s %d" % (src, 4 * len(data)))
+                    if blank_norm(i2.split(" ; ")) != blank_norm(m2.split(" ; ")):
+                        ev.corr = "fault %s at %d (sections): impl %r vs model %r" % (kind, k, i2[:200], m2[:200])
+                    if kind == "i":
+                        if i != base_b or i2 != base_s:
+                            ev.judge = "an Interrupted read at position %d changed the result: %s" % (k, i[:200])
+                    else:
+                        if k < len(events) and i != "err sections E io":
+                            ev.judge = "a failing read at position %d gave %s" % (k, i[:200])
+                        if k < len(events) and "E io" not in i2.split(" ; "):
+                            ev.judge = "a failing read at position %d did not surface from sections(): %s" % (k, i2[:200])
+                        if "panic" in i or "panic" in i2:
+                            ev.judge = "panic after a failing read at position %d" % k
+                    ev.tags.append("fault:" + kind)
+                    if 0 < k < len(events):
+                        ev.nontrivial = (case_key2(cs), case["seed"], k, kind)
+                if ev.judge:
+                    break
+        return ev
+
+    def shrink(self, case):
+        for csx in ch.shrink_chains(case["chains"]):
+            c = copy.deepcopy(case)
+            c["chains"] = csx
+            c.pop("offsets", None)
+            c.pop("positions", None)
+            yield c
+
+
+def py_spec_next(canon, i):
+    """python statement of the grammar on canonical line strings: one `next()` of a section iterator at
+    rest, from line index i. returns (item kind, lines consumed)"""
+    n = len(canon)
+    k = i
+    while k < n and canon[k] == "empty":
+        k += 1
+    if k == n:
+        return ("done", k - i)
+    c = canon[k]
+    if c in ("io", "utf8"):
+        return ("E io", k + 1 - i)
+    if c == "err":
+        return ("E unparsable", k + 1 - i)
+    if c.startswith("data"):
+        return ("E databetween", k + 1 - i)
+    # header
+    hdr = c[len("header "):]
+    recs = []
+    k += 1
+    while True:
+        if k == n:
+            return ("E abrupt", k - i)
+        c = canon[k]
+        if c == "empty":
+            return ("E blank", k + 1 - i)
+        if c.startswith("header"):
+            return ("E headerin", k + 1 - i)
+        if c in ("io", "utf8"):
+            return ("E io", k + 1 - i)
+        if c == "err":
+            return ("E unparsable", k + 1 - i)
+        recs.append(c[len("data "):])
+        k += 1
+        if c.endswith(" T"):
+            return ("S " + hdr + "".join(" | " + r for r in recs), k - i)
+
+
+@register
+class C17(Prop):
+    id = "C17"
+    title = "One cursor: every reading method consumes the stream strictly line by line"
+    rule = ("files (valid, with errors, with invalid UTF-8 lines) x random histories of reader operations of length <= 12 (quick) / "
+            "<= 40 (thorough) over {read_line_raw, read_line, k calls on a fresh lines(), k calls on a fresh sections()}; judge = a "
+            "single cursor over the list of lines (from one `lines()` pass over the same bytes): every operation must observe "
+            "exactly the next lines, in order, and a yielded section must end the consumption at its terminating line; "
+            "non-trivial = the history mixes >= 3 kinds of operation and yields a section; distinct by (file, history)")
+
+    def cases(self, rng, tier):
+        for _ in range(400 if tier == "quick" else 15000):
+            lines = gen_line_case(rng, tier)
+            if rng.random() < 0.6:
+                chains = ch.gen_file(rng, max_chains=3)
+                lines = []
+                for c in chains:
+                    lines += c.lines() + [""] * rng.choice([0, 1, 2])
+            raw = [l.encode() for l in lines]
+            if rng.random() < 0.1 and raw:
+                raw[rng.randrange(len(raw))] = b"\xff\xfe"
+            nops = rng.randint(1, 12 if tier == "quick" else 40)
+            ops = []
+            for _ in range(nops):
+                r = rng.random()
+                if r < 0.3:
+                    ops.append("raw")
+                elif r < 0.55:
+                    ops.append("line")
+                elif r < 0.75:
+                    ops.append("lines%d" % rng.randint(0, 4))
+                else:
+                    ops.append("secs%d" % rng.randint(1, 3))
+            yield {"kind": "ops", "lines": [l.hex() for l in raw], "ops": ops, "eol": rng.choice(["\n", "\r\n"]),
+                   "final_newline": rng.random() < 0.6}
+
+    def evaluate(self, ctx, case):
+        ev = Eval()
+        eol = case["eol"].encode()
+        raw = [bytes.fromhex(h) for h in case["lines"]]
+        data = eol.join(raw) + (eol if case["final_newline"] and raw else b"")
+        src = ch.src_one(data)
+        i, m = both(ctx, ev, "ops %s %s" % (src, ",".join(case["ops"])))
+        im, mm = [blank_norm(x.split(" / ")) for x in i.split(" ; ")], [blank_norm(x.split(" / ")) for x in m.split(" ; ")]
+        if im != mm:
+            ev.corr = "impl %r vs model %r" % (i[:300], m[:300])
+        # the lines of the file, by one pass each of read_line_raw and lines() over the same bytes
+        rawl = ctx.impl.ask("raw " + src).split(" ")[:-1]
+        canon = ctx.impl.ask("lines " + src).split(" ; ")[:-1]
+        if len(rawl) != len(canon):
+            ev.judge = "raw pass and lines() pass disagree on the number of lines"
+            return ev
+        cur = 0
+        kinds = set()
+        yielded = False
+        for op, obs in zip(case["ops"], i.split(" ; ")):
+            if op == "raw":
+                kinds.add("raw")
+                want = rawl[cur] if cur < len(rawl) else "eof"
+                if obs != want:
+                    ev.judge = "read_line_raw at line %d observed %s, expected %s" % (cur, obs, want)
+                    break
+                cur += 1 if cur < len(rawl) else 0
+            elif op == "line":
+                kinds.add("line")
+                if cur >= len(canon):
+                    want = "none"
+                else:
+                    c = canon[cur]
+                    want = {"io": "err io", "utf8": "err utf8", "err": "err err"}.get(c, "ok " + c)
+                if obs != want:
+                    ev.judge = "read_line at line %d observed %s, expected %s" % (cur, obs, want)
+                    break
+                cur += 1 if cur < len(canon) else 0
+            elif op.startswith("lines"):
+                kinds.add("lines")
+                items = obs.split(" / ")[1:]
+                for it in items:
+                    want = canon[cur] if cur < len(canon) else "eof"
+                    if it != want:
+                        ev.judge = "lines() at line %d observed %s, expected %s" % (cur, it, want)
+                        break
+                    cur += 1 if cur < len(canon) else 0
+                if ev.judge:
+                    break
+            else:
+                kinds.add("secs")
+                items = obs.split(" / ")[1:]
+                for it in items:
+                    want, used = py_spec_next(canon, cur)
+                    got = it if it.startswith("S ") or it == "done" else " ".join(it.split(" ")[:2])
+                    if got != want:
+                        ev.judge = "sections() at line %d yielded %s, a single cursor gives %s" % (cur, it[:120], want[:120])
+                        break
+                    cur += used
+                    yielded = yielded or it.startswith("S ")
+                if ev.judge:
+                    break
+        for k in kinds:
+            ev.tags.append("op:" + k)
+        if len(kinds) >= 3 and yielded:
+            ev.nontrivial = case_key2(case)
+        return ev
+
+    def shrink(self, case):
+        for k in range(len(case["ops"])):
+            if len(case["ops"]) > 1:
+                c = copy.deepcopy(case)
+                del c["ops"][k]
+                yield c
+        for k in range(len(case["lines"])):
+            c = copy.deepcopy(case)
+            del c["lines"][k]
+            yield c
+
+
+# ==========================================================================================
+# C13 / C14 — records and lines
+# ==========================================================================================
+
+ODD_NAMES = ["chr1", "a", "", "x:y", "a\tb", "chr_Un-1.2", "é中", "chain", "1", "+"]
+
+
+def gen_num(rng, style=True):
+    v = rng.choice([0, 1, 2, 9, 10, 255, 2 ** 32, U64 - 1, U64]) if rng.random() < 0.4 else rng.randint(0, 10 ** rng.randint(1, 19))
+    v = min(v, U64)
+    if style and rng.random() < 0.25:
+        return rng.choice(["+", "0", "00", "+0"]) + str(v), v
+    return str(v), v
+
+
+def gen_header_text(rng, valid=True, distinct=True):
+    def side():
+        size = rng.randint(0, 10 ** rng.randint(1, 19)) if rng.random() < 0.5 else rng.choice([0, 5, 77, U64])
+        size = min(size, U64)
+        a = rng.randint(0, size)
+        b = rng.randint(a, size)
+        if not valid and rng.random() < 0.5:
+            k = rng.random()
+            if k < 0.4:
+                a, b = b + 1, a
+            elif k < 0.8:
+                b = min(U64, size + rng.randint(1, 3))
+        return [rng.choice(ODD_NAMES), size, rng.choice("+-"), a, b]
+    r, q = side(), side()
+    fields = ["chain", rng.randint(0, 10 ** 9)] + r + q + [rng.randint(0, 10 ** 6)]
+    out = []
+    for f in fields:
+        if isinstance(f, int):
+            s = str(f)
+            if rng.random() < 0.12:
+                s = rng.choice(["+", "0", "000"]) + s
+            out.append(s)
+        else:
+            out.append(f)
+    if not valid and rng.random() < 0.4:
+        k = rng.randrange(len(out))
+        out[k] = rng.choice(["", "x", "-1", "18446744073709551616", "*", " ", "1e3"])
+    if not valid and rng.random() < 0.15:
+        out = out[:rng.randint(1, 12)]
+    return " ".join(out)
+
+
+def gen_data_text(rng, valid=True):
+    n = rng.choice([1, 3]) if valid else rng.choice([1, 2, 3, 4, 0])
+    fs = [gen_num(rng)[0] for _ in range(n)]
+    if not valid and fs and rng.random() < 0.5:
+        fs[rng.randrange(len(fs))] = rng.choice(["", "x", "-0", "18446744073709551616", " 5", "5 ", "5\r"])
+    return "\t".join(fs)
+
+
+def is_canon_num(s):
+    return s.isdigit() and s.isascii() and str(int(s)) == s
+
+
+@register
+class C13(Prop):
+    id = "C13"
+    title = "Print/parse round trip for records, lines and whole files"
+    rule = ("header lines with odd contig names (empty, ':', TAB, non-ASCII, 'chain', digits), numbers from 0 to u64::MAX with '+', "
+            "leading zeros, mostly distinct values in same-typed fields; data lines with 1 or 3 fields; malformed variants; whole "
+            "generated files re-serialised from the printed lines (header, data lines, blank line): judge = the printed text parses "
+            "back to the same record and prints identically again, canonical text prints back byte-identically, the re-serialised "
+            "file yields equal sections and equal liftover answers; non-trivial = an accepted line with a non-canonical numeral or "
+            "an odd name, or a file with >= 2 sections; distinct by text")
+
+    def cases(self, rng, tier):
+        n = 3000 if tier == "quick" else 100000
+        for k in range(n):
+            r = rng.random()
+            if r < 0.5:
+                yield {"kind": "line", "text": gen_header_text(rng, valid=rng.random() < 0.8)}
+            elif r < 0.9:
+                yield {"kind": "line", "text": gen_data_text(rng, valid=rng.random() < 0.8)}
+            else:
+                chains = ch.gen_file(rng, max_chains=3) if rng.random() < 0.8 else ch.gen_big_file(rng)
+                ivs = [list(ch.gen_interval(rng, chains)) for _ in range(8)]
+                yield {"kind": "file", "chains": [ch.chain_to_dict(c) for c in chains], "style": ch.style_to_dict(ch.gen_style(rng)), "ivs": ivs}
+
+    def evaluate(self, ctx, case):
+        ev = Eval()
+        if case["kind"] == "line":
+            t = case["text"]
+            i, m = both(ctx, ev, "line " + hx(t))
+            if i != m:
+                ev.corr = "impl %r vs model %r" % (i[:300], m[:300])
+            ev.tags.append(" ".join(i.split(" ")[:2]))
+            if not i.startswith("ok"):
+                return ev
+            canon, pr = i.rsplit(" print=", 1)
+            if pr == "err":
+                ev.judge = "Display failed"
+                return ev
+            i2 = ctx.impl.ask("line " + pr)
+            ev.requests.append("line " + pr)
+            if i2 != i:
+                ev.judge = "printed text %r parses to %r, original %r" % (ch.unhx(pr), i2[:200], i[:200])
+                return ev
+            fields = t.split(" ") if t.startswith("chain") else t.split("\t")
+            nums = [fields[k] for k in ((1, 3, 5, 6, 8, 10, 11, 12) if t.startswith("chain") else range(len(fields)))] if t else []
+            if all(is_canon_num(x) for x in nums):
+                if ch.unhx(pr) != t.encode():
+                    ev.judge = "canonical text %r printed back as %r" % (t, ch.unhx(pr))
+            else:
+                ev.nontrivial = t
+            if t.startswith("chain") and fields[2] not in ("chr1", "a"):
+                ev.nontrivial = t
+        else:
+            data = ch.render_case(case["chains"], case["style"])
+            src = ch.src_one(data)
+            ivs = ",".join(iv_tok(*iv) for iv in case["ivs"])
+            i, m = both(ctx, ev, "liftover %s %s" % (src, ivs))
+            if lift_obs(i) != lift_obs(m):
+                ev.corr = "impl %r vs model %r" % (i[:300], m[:300])
+            if not i.startswith("ok"):
+                ev.tags.append("file:" + i.split(" ")[0])
+                return ev
+            secs = ctx.impl.ask("sections %s 1000" % src)
+            raws = ctx.impl.ask("raw " + src).split(" ")[:-1]
+            out = []
+            for t in raws:
+                text = ch.unhx(t.split(":")[1])
+                if not text:
+                    continue
+                r = ctx.impl.ask("line " + hx(text))
+                if not r.startswith("ok"):
+                    ev.judge = "line of an accepted file does not parse alone: %r" % text
+                    return ev
+                pr = ch.unhx(r.rsplit(" print=", 1)[1])
+                out.append(pr)
+                if r.startswith("ok data") and r.split(" print=")[0].endswith(" T"):
+                    out.append(b"")
+            data2 = b"\n".join(out) + b"\n"
+            src2 = ch.src_one(data2)
+            secs2 = ctx.impl.ask("sections %s 1000" % src2)
+            i2 = ctx.impl.ask("liftover %s %s" % (src2, ivs))
+            ev.requests.append("liftover %s %s" % (src2, ivs))
+            if secs2 != secs:
+                ev.judge = "re-serialised file parses to different sections"
+            elif i2 != i:
+                ev.judge = "re-serialised file builds a machine with different answers: %s vs %s" % (i2[:200], i[:200])
+            ev.tags.append("file:ok")
+            if len(case["chains"]) >= 2:
+                ev.nontrivial = case_key(case)
+        return ev
+
+    def shrink(self, case):
+        if case["kind"] == "line":
+            t = case["text"]
+            sep = " " if t.startswith("chain") else "\t"
+            fs = t.split(sep)
+            for k in range(len(fs)):
+                if len(fs[k]) > 1:
+                    f2 = list(fs)
+                    f2[k] = fs[k][:-1]
+                    yield {"kind": "line", "text": sep.join(f2)}
+        else:
+            for cs in ch.shrink_chains(case["chains"]):
+                c = copy.deepcopy(case)
+                c["chains"] = cs
+                yield c
+
+
+@register
+class C14(Prop):
+    id = "C14"
+    title = "Record validation invariants and strand-aware sequence-to-interval conversion"
+    profiles = ["ovf", "wrap"]
+    rule = ("strings offered as header / data lines (valid and malformed), (name,size,strand,start,end) string tuples offered to "
+            "Sequence::try_from_str_parts with values at 0, 1, size, size±1, 2^32, u64::MAX and beyond, (size,dt,dq,kind) tuples offered "
+            "to Record::try_new; both arithmetic configurations; judge = the statement of C14 on the implementation's output "
+            "(start<=end<=size, kind by field count, gaps iff non-terminating, '+' start..end, '-' size-start down to size-end, "
+            "end>size never wrapped or panicking); non-trivial = accepted value at a boundary, or end>size; distinct by input")
+
+    def cases(self, rng, tier):
+        n = 4000 if tier == "quick" else 150000
+        for _ in range(n):
+            r = rng.random()
+            if r < 0.3:
+                yield {"kind": "line", "text": gen_header_text(rng, valid=rng.random() < 0.6)}
+            elif r < 0.5:
+                yield {"kind": "line", "text": gen_data_text(rng, valid=rng.random() < 0.6)}
+            elif r < 0.85:
+                size = rng.choice([0, 1, 2, 10, 2 ** 32, U64 - 1, U64]) if rng.random() < 0.6 else rng.randint(0, 100)
+                pts = [0, 1, size, max(0, size - 1), min(U64, size + 1), min(U64, size + 3), U64, rng.randint(0, max(1, size))]
+                a, b = rng.choice(pts), rng.choice(pts)
+                if rng.random() < 0.8 and a > b:
+                    a, b = b, a
+                parts = [rng.choice(ODD_NAMES), str(size), rng.choice(["+", "-", "-", "*", ""]) if rng.random() < 0.1 else rng.choice("+-"), str(a), str(b)]
+                if rng.random() < 0.08:
+                    parts[rng.choice([1, 3, 4])] = rng.choice(["", "x", "18446744073709551616", "-1", "+7", "007"])
+                yield {"kind": "seq", "parts": parts}
+            else:
+                v = lambda: rng.choice([None, 0, 1, U64, rng.randint(0, 100)])
+                yield {"kind": "rec_new", "size": rng.choice([0, 1, U64, rng.randint(0, 99)]), "dt": v(), "dq": v(), "k": rng.choice("TN")}
+
+    def evaluate(self, ctx, case):
+        ev = Eval()
+        if case["kind"] == "line":
+            req = "line " + hx(case["text"])
+        elif case["kind"] == "seq":
+            req = "seq " + " ".join(hx(p) for p in case["parts"])
+        else:
+            o = lambda x: "_" if x is None else str(x)
+            req = "rec_new %d %s %s %s" % (case["size"], o(case["dt"]), o(case["dq"]), case["k"])
+        i, m = both(ctx, ev, req)
+        w = ctx.impl_wrap.ask(req) if ctx.impl_wrap else i
+        if i != m:
+            ev.corr = "impl %r vs model %r" % (i[:300], m[:300])
+        ev.tags.append(case["kind"] + ":" + " ".join(x for x in i.split(" ")[:2] if not x.isdigit()))
+        if "panic" in (i.split(" ")[0], w.split(" ")[0]) or "abort" in (i, w):
+            ev.judge = "panic (overflow-checked: %s, unchecked: %s)" % (i[:100], w[:100])
+            return ev
+        if w != i:
+            ev.judge = "result depends on the arithmetic configuration: checked %s, unchecked %s" % (i[:200], w[:200])
+            return ev
+        if case["kind"] == "line" and i.startswith("ok header"):
+            t = i.split(" print=")[0].split(" ")
+            for s in (t[3], t[4]):
+                name, size, strand, a, b = s.rsplit(",", 4)
+                if strand not in "+-" or not (0 <= int(a) <= int(b) <= int(size) <= U64):
+                    ev.judge = "accepted header violates start<=end<=size: " + s
+            ev.nontrivial = case["text"]
+        elif case["kind"] == "line" and i.startswith("ok data"):
+            t = i.split(" print=")[0].split(" ")
+            nf = len(case["text"].split("\t"))
+            kind, dt, dq = t[5], t[3], t[4]
+            if (kind == "T") != (nf == 1) or (kind == "N") != (nf == 3) or ((dt == "_") != (kind == "T")) or ((dq == "_") != (kind == "T")):
+                ev.judge = "accepted data record violates kind/field-count/gap invariants: " + i
+            ev.nontrivial = case["text"]
+        elif case["kind"] == "rec_new":
+            ok = (case["k"] == "N" and case["dt"] is not None and case["dq"] is not None) or \
+                 (case["k"] == "T" and case["dt"] is None and case["dq"] is None)
+            if ok != i.startswith("ok"):
+                ev.judge = "Record::try_new(%s): expected %s, got %s" % (req, "ok" if ok else "err", i)
+            ev.nontrivial = req
+        elif case["kind"] == "seq" and i.startswith("ok"):
+            name, size, strand, a, b = i.split(" ")[1].rsplit(",", 4)
+            size, a, b = int(size), int(a), int(b)
+            iv = i.split(" iv=")[1]
+            if not (a <= b):
+                ev.judge = "accepted sequence with start > end"
+            elif b <= size:
+                lo, hi = (a, b) if strand == "+" else (size - b, size - a)
+                want = iv_tok(ch.unhx(name).decode(), strand, lo, hi)
+                if iv != want:
+                    ev.judge = "interval of %s: expected %s, got %s" % (i.split(" ")[1], want, iv)
+                if a in (0, size) or b in (0, size):
+                    ev.nontrivial = req
+            else:
+                want = iv_tok(ch.unhx(name).decode(), "+", a, b) if strand == "+" else "err_oob"
+                if iv != want:
+                    ev.judge = "end > size: expected %s, got %s" % (want, iv)
+                ev.nontrivial = req
+        return ev
+
+    def neighbours(self, case, rng):
+        if case["kind"] == "seq":
+            for idx in (1, 3, 4):
+                for d in (-1, 1):
+                    try:
+                        v = int(case["parts"][idx]) + d
+                    except ValueError:
+                        continue
+                    if 0 <= v <= U64:
+                        c = copy.deepcopy(case)
+                        c["parts"][idx] = str(v)
+                        yield c
+            c = copy.deepcopy(case)
+            c["parts"][2] = "-" if c["parts"][2] == "+" else "+"
+            yield c
+
+
+# ==========================================================================================
+# C06 — panic freedom; C18 — sharing across threads
+# ==========================================================================================
+
+def gen_wild_bytes(rng):
+    k = rng.random()
+    if k < 0.3:
+        return bytes(rng.randrange(256) for _ in range(rng.randint(0, 60)))
+    if k < 0.6:
+        alphabet = b"chain 0123456789+-\t\n\r\n\n  acgtq\xff"
+        return bytes(rng.choice(alphabet) for _ in range(rng.randint(0, 120)))
+    lines = [render_class(rng, rng.choice(CLASSES)) for _ in range(rng.randint(0, 9))]
+    return ch.render_lines(lines, rng.choice(["\n", "\r\n"]), rng.random() < 0.5)
+
+
+def gen_exotic_chains(rng):
+    chains = ch.gen_file(rng, zero_prob=0.3) if rng.random() < 0.7 else ch.gen_big_file(rng)
+    cs = [ch.chain_to_dict(c) for c in chains]
+    if rng.random() < 0.3 and cs:
+        d = copy.deepcopy(rng.choice(cs))
+        side = rng.choice(["ref", "qry"])
+        d[side][1] += rng.choice([1, 5])
+        cs.insert(rng.randrange(len(cs) + 1), d)
+    return cs
+
+
+@register
+class C06(Prop):
+    id = "C06"
+    title = "Panic freedom: no byte stream and no query interval makes the library panic"
+    profiles = ["ovf", "wrap"]
+    rule = ("every operation of the protocol (raw reads, lines(), sections() drained past errors, step-through of every parseable "
+            "section, build, liftover, reader histories, line/record/sequence constructors, pair algebra inside its quantifier) on "
+            "valid files, exotic files (zero-size blocks, redeclared contig sizes, coordinates at 2^32/2^63/2^64), single- and "
+            "multi-point corruptions, grammar-random and byte-random streams, invalid UTF-8, with chunked and faulty readers, "
+            "intervals of every kind (zero-length, unknown contig, up to u64::MAX) — in both arithmetic configurations (overflow "
+            "checks on and off), whose outputs must also be identical; plus the static inventory of panic-capable sites; "
+            "non-trivial = a request that reaches an error path or a boundary value; distinct by request")
+
+    def static_checks(self, ctx):
+        from . import inventory
+        import os
+        unacc, removed, sharing = inventory.compare(os.path.join(os.path.dirname(os.path.dirname(__file__)), "lean", "panic_sites.json"))
+        self.inventory = {"unaccounted": unacc, "removed": removed}
+        self.unaccounted = unacc
+        return []
+
+    def cases(self, rng, tier):
+        n = 6000 if tier == "quick" else 300000
+        for _ in range(n):
+            k = rng.random()
+            if k < 0.25:
+                cs = gen_exotic_chains(rng)
+                chains = [ch.chain_from_dict(c) for c in cs]
+                ivs = [list(ch.gen_interval(rng, chains)) for _ in range(8)]
+                yield {"kind": "lift", "chains": cs, "style": ch.style_to_dict(ch.gen_style(rng)), "ivs": ivs}
+            elif k < 0.45:
+                cs = canonical_file(rng)
+                muts = list(mutations(rng, cs))
+                label, lines = rng.choice(muts)
+                if rng.random() < 0.3:
+                    label2, lines2 = rng.choice(muts)
+                    lines = lines[:len(lines) // 2] + lines2[len(lines2) // 2:]
+                chains = [ch.chain_from_dict(c) for c in cs]
+                yield {"kind": "stream", "data": ch.render_lines(lines, rng.choice(["\n", "\r\n"])).hex(),
+                       "ivs": [list(ch.gen_interval(rng, chains)) for _ in range(4)], "faults": rng.random() < 0.3, "seed": rng.randint(0, 2 ** 31)}
+            elif k < 0.7:
+                yield {"kind": "stream", "data": gen_wild_bytes(rng).hex(), "ivs": [["a", "+", 0, 5], ["chr1", "-", 3, 3], ["b", "+", U64 - 1, U64]],
+                       "faults": rng.random() < 0.3, "seed": rng.randint(0, 2 ** 31)}
+            elif k < 0.8:
+                yield gen_step_case(rng)
+            elif k < 0.9:
+                yield {"kind": "line", "text": rng.choice([gen_header_text(rng, valid=False), gen_data_text(rng, valid=False)])}
+            else:
+                size = rng.choice([0, 1, 2, 10, U64])
+                yield {"kind": "seq", "parts": [rng.choice(ODD_NAMES), str(size), rng.choice("+-"), str(rng.choice([0, 1, size, U64])), str(rng.choice([0, 1, size, min(U64, size + 1), U64]))]}
+
+    def requests(self, case):
+        reqs = []
+        if case["kind"] == "lift":
+            data = ch.render_case(case["chains"], case["style"])
+            ivs = ",".join(iv_tok(*iv) for iv in case["ivs"])
+            reqs.append("liftover %s %s" % (ch.src_one(data), ivs))
+            n = data.count(b"\n") + 2
+            reqs.append("sections %s %d" % (ch.src_one(data), 4 * n))
+        elif case["kind"] == "stream":
+            data = bytes.fromhex(case["data"])
+            rng = random.Random(case["seed"])
+            events = [("c", data)] if not case["faults"] else rng.choice(ch.chunkings(rng, data, k=2))
+            if case["faults"]:
+                for _ in range(rng.randint(1, 3)):
+                    events.insert(rng.randint(0, len(events)), rng.choice(["f", "i"]))
+            src = ch.src_events(events)
+            n = data.count(b"\n") + len(events) + 2
+            ivs = ",".join(iv_tok(*iv) for iv in case["ivs"])
+            reqs += ["raw " + src, "lines " + src, "sections %s %d" % (src, 4 * n), "liftover %s %s" % (src, ivs),
+                     "ops %s %s" % (src, ",".join(rng.choice(["raw", "line", "lines2", "secs2", "secs1"]) for _ in range(6)))]
+        elif case["kind"] == "step":
+            reqs.append(step_request(case, 4 * len(case["recs"]) + 8)[0])
+        elif case["kind"] == "line":
+            reqs.append("line " + hx(case["text"]))
+        else:
+            reqs.append("seq " + " ".join(hx(p) for p in case["parts"]))
+        return reqs
+
+    def evaluate(self, ctx, case):
+        ev = Eval()
+        for req in self.requests(case):
+            i, m = both(ctx, ev, req)
+            w = ctx.impl_wrap.ask(req) if ctx.impl_wrap else i
+            ip = "panic" in i.split(" ") or i == "abort" or "panic" in i.split(" ; ")
+            wp = "panic" in w.split(" ") or w == "abort" or "panic" in w.split(" ; ")
+            mp = "panic" in m.split(" ")
+            op = req.split(" ")[0]
+            ev.tags.append(op + (":panic" if ip or wp else ""))
+            if ip or wp:
+                ev.judge = "%s panicked (overflow checks %s): %s" % (op, "on" if ip else "off", (i if ip else w)[:200])
+                return ev
+            if w != i:
+                ev.judge = "%s: result depends on the arithmetic configuration: checked %s, unchecked %s" % (op, i[:200], w[:200])
+                return ev
+            if mp != ip:
+                ev.corr = "model panics, implementation does not: " + m[:200]
+            if any(t in i for t in ("E ", "err", "none", "io", "utf8")):
+                ev.nontrivial = hash(req)
+        if getattr(self, "unaccounted", None) and not getattr(self, "_reported", False):
+            self._reported = True
+            ev.corr = "source inventory: panic-capable sites not accounted for by the model: " + "; ".join(self.unaccounted)
+        return ev
+
+    def shrink(self, case):
+        if case["kind"] == "lift":
+            for cs in ch.shrink_chains(case["chains"]):
+                c = copy.deepcopy(case)
+                c["chains"] = cs
+                yield c
+            for k in range(len(case["ivs"])):
+                if len(case["ivs"]) > 1:
+                    c = copy.deepcopy(case)
+                    c["ivs"] = [case["ivs"][k]]
+                    yield c
+        elif case["kind"] == "stream":
+            data = bytes.fromhex(case["data"])
+            lines = data.split(b"\n")
+            for k in range(len(lines)):
+                c = copy.deepcopy(case)
+                c["data"] = b"\n".join(lines[:k] + lines[k + 1:]).hex()
+                yield c
+            if case["faults"]:
+                c = copy.deepcopy(case)
+                c["faults"] = False
+                yield c
+        elif case["kind"] == "step":
+            for c in StepBase.shrink(self, case):
+                yield c
+
+    def neighbours(self, case, rng):
+        return iter(())
+
+
+@register
+class C18(Prop):
+    id = "C18"
+    level = "other"
+    title = "Machine is shareable across threads; concurrent use equals sequential use (partial)"
+    rule = ("rustc compiles the probe crate harness/sendsync against /repo (static Send + Sync assertions for Machine, "
+            "ContiguousIntervalPair, the answer type and every error type; 'static for Machine); the source inventory finds no "
+            "`unsafe`, Cell/RefCell/Rc, `static mut` or thread_local!; generated files x query lists are answered on one thread "
+            "and on 8 threads sharing one Arc<Machine> (20 rounds each, different start offsets) and compared with each other "
+            "and with the model; non-trivial = a query list with >= 1 non-empty answer; distinct by (file, queries)")
+    trusted = ["rustc's Send/Sync auto-trait checking and borrow checker (the argument for real interleavings)",
+               "the probe crate /verif/harness/sendsync"]
+
+    def static_checks(self, ctx):
+        import os, shutil, subprocess
+        from . import build, inventory
+        out = []
+        d = os.path.join(build.HARNESS, "sendsync")
+        with build.Lock():
+            shutil.copyfile(os.path.join(build.REPO, "Cargo.lock"), os.path.join(d, "Cargo.lock"))
+            r = subprocess.run(["cargo", "build", "--offline", "--release"], cwd=d, env=build.env(),
+                               stdout=subprocess.PIPE, stderr=subprocess.STDOUT, text=True)
+        if r.returncode != 0:
+            out.append(("judge", "the Send/Sync probe crate no longer compiles against /repo:\n" + r.stdout[-4000:]))
+            return out
+        self.probe = os.path.join(d, "target", "release", "cfsendsync")
+        _, sharing = inventory.scan()
+        if sharing:
+            out.append(("judge", "unsafe / interior mutability found in /repo/src: %s" % sharing))
+        return out
+
+    def cases(self, rng, tier):
+        for _ in range(25 if tier == "quick" else 600):
+            chains = ch.gen_file(rng) if rng.random() < 0.9 else ch.gen_big_file(rng)
+            ivs = [list(ch.gen_interval(rng, chains)) for _ in range(24)]
+            yield {"kind": "threads", "chains": [ch.chain_to_dict(c) for c in chains], "ivs": ivs}
+
+    def evaluate(self, ctx, case):
+        import subprocess
+        ev = Eval()
+        data = ch.render_case(case["chains"])
+        ivs = [iv for iv in case["ivs"] if all(ord(c) < 128 for c in iv[0])]
+        def plain(iv):
+            a, b = (iv[2], iv[3]) if iv[1] == "+" else (iv[3], iv[2])
+            return "%s:%s:%d-%d" % (iv[0], iv[1], a, b)
+        inp = data.hex() + "\n" + "\n".join(plain(iv) for iv in ivs) + "\n"
+        r = subprocess.run([self.probe], input=inp, stdout=subprocess.PIPE, stderr=subprocess.PIPE, text=True, timeout=120)
+        ev.requests.append("cfsendsync <file> <%d intervals>" % len(ivs))
+        ev.impl.append(r.stdout[:500])
+        lines = r.stdout.strip().split("\n")
+        if r.returncode != 0 or len(lines) != 2 or not lines[0].startswith("seq ") or not lines[1].startswith("par "):
+            ev.judge = "threaded probe failed: rc=%d %s %s" % (r.returncode, r.stdout[:200], r.stderr[:200])
+            return ev
+        seq = lines[0][4:]
+        for t, p in enumerate(lines[1][4:].split("|")):
+            if p != seq:
+                ev.judge = "thread %d saw different answers than the sequential run" % t
+                return ev
+        # against the model
+        m = ctx.model.ask("liftover %s %s" % (ch.src_one(data), ",".join(iv_tok(*iv) for iv in ivs)))
+        ev.model.append(m[:500])
+        mb, ma = parse_liftover_reply(m)
+        want = []
+        for tag, pairs in ma:
+            if tag != "some":
+                want.append("none")
+            else:
+                def show(p):
+                    a = "%s:%s:%d-%d" % ((p[0], p[1]) + ((p[2], p[3]) if p[1] == "+" else (p[3], p[2])))
+                    b = "%s:%s:%d-%d" % ((p[4], p[5]) + ((p[6], p[7]) if p[5] == "+" else (p[7], p[6])))
+                    return a + " -> " + b
+                want.append(",".join(show(p) for p in pairs))
+        if ";".join(want) != seq:
+            ev.corr = "sequential answers differ from the model: %r vs %r" % (seq[:200], ";".join(want)[:200])
+        if any(a != "none" for a in seq.split(";")):
+            ev.nontrivial = case_key2(case)
+        ev.tags.append("threads=8")
+        return ev
